@@ -77,6 +77,9 @@ MUTANTS = [
     ("c14-allow-long-never-reset", "C14", "_protocol/outgoing.py",
      "        len_limit = _MAX_MSG_ABSOLUTE if self.allow_long else _MAX_MSG_TYPICAL\n        self.allow_long = False\n",
      "        len_limit = _MAX_MSG_ABSOLUTE if self.allow_long else _MAX_MSG_TYPICAL\n"),
+    ("c10-kept-query-keeps-old-ttl", "C10", "_services/browser.py",
+     "                current.ttl = int(pointer.ttl) if isinstance(pointer.ttl, float) else pointer.ttl\n"
+     "                current.expire_time_millis = pointer.get_expiration_time(100)\n", ""),
     ("c15-no-size-guard", "C15", "_listener.py",
      "        if data_len > _MAX_MSG_ABSOLUTE:", "        if data_len > 10 * _MAX_MSG_ABSOLUTE:"),
     # (removing the NamePartTooLongException containment of the legacy-unicast echo became equivalent once the decoder
